@@ -482,16 +482,11 @@ pub fn finish_named(ctx: &RunCtx, rep: Report, file_stem: &str) -> i32 {
     std::fs::write(&tmp, serde_json::to_string_pretty(&ev).unwrap()).expect("write evidence");
     std::fs::rename(&tmp, &fin).expect("rename evidence");
 
-    for (sig, n) in &agg.known {
-        let d = ctx
-            .known
-            .open
-            .iter()
-            .find(|(_, s, _)| s == sig)
-            .map(|x| x.2.clone())
-            .unwrap_or_default();
+    // one line per listed open finding of this property (observed or not in this run)
+    for (_, sig, d) in ctx.known.for_prop(ctx.prop) {
+        let n = agg.known.get(sig).copied().unwrap_or(0);
         println!(
-            "KNOWN-FINDING: property={} signature={} observed={} {}",
+            "KNOWN-FINDING: property={} signature={} observed_in_this_run={} {}",
             ctx.prop, sig, n, d
         );
     }
